@@ -7,9 +7,20 @@ C-typing evaluator (LP64: literal typing by value/base/suffix, usual
 arithmetic conversions, two's complement) only discards expressions whose C
 evaluation is undefined and keeps values in the range of the context; if it
 disagrees with gcc the run is inconclusive.  cffi's value is read in-line,
-from an emitted out-of-line ABI module and from a compiled API module.
+from an emitted out-of-line ABI module, from a compiled API module and (a few
+chunks) from an ffi.verify() module of either engine.
+
+Input classes beyond a single self-contained expression: named constants
+('#define' and enumerators declared before the expression -- in the same
+cdef(), in an earlier cdef() call or in an ffi.include()d FFI) used as leaves;
+enums with several enumerators (implicit first / consecutive implicit values,
+enumerators referring to earlier ones); named, typedef'd and anonymous enums;
+binary literals; array lengths of typedefs and of two-dimensional fields; C operators that cparser does not
+list (~ ! comparisons && || ?: casts: if cffi accepts one, the value must be
+C's); the out-of-line type-string parser (ffi.typeof('char[<literal or named
+constant>]') on the emitted / compiled module).
 """
-import os, sys, subprocess
+import os, re, sys, subprocess
 from vlib import core, cc
 
 RULE = ("case = (context, expression text[, declared type]); contexts: array length of a struct "
@@ -21,14 +32,32 @@ RULE = ("case = (context, expression text[, declared type]); contexts: array len
         "simple escapes), unary + -, binary + - * / % << >> & | ^, with and without redundant "
         "parentheses (+ up to two '(t & m) + 1' levels steering array lengths / widths into range); "
         "C-undefined expressions discarded by the evaluator; distinct = (context, "
-        "text, type); non-trivial = has an operator, or a literal that is not plain decimal")
+        "text (of the prelude and of the expression, item numbers in names removed), type, form, "
+        "history); non-trivial = has an operator, or a literal that is not plain decimal. "
+        "Extensions: binary literals (0b...); ~30% of the tree contexts get a prelude of 1-3 named "
+        "constants ('#define R <-?literal>' / enumerators with explicit or implicit values, int "
+        "range) that the expression uses as leaves, declared in the same cdef, in an earlier "
+        "cdef() call or in an included FFI (out-of-line: an included base module); context "
+        "'menum' = one enum with 2-5 enumerators, explicit (possibly referring to earlier "
+        "enumerators) or implicit (also first / consecutive); array lengths also as 'typedef "
+        "char t[E]' and as either dimension of 'char a[E][k]'; the single-expression enum also as "
+        "'typedef enum {...} t' and as an anonymous enum; ~6% 'other forms' with ~ ! < > <= "
+        ">= == != && || ?: and casts (judged only when cffi accepts them); '#define' lines with "
+        "leading blanks, '# define', trailing comments, a continuation line; 'static const' "
+        "qualifier orders; out-of-line type strings 'char[<expr>]' and 'char[<NAME>]' (judged "
+        "only when the C type parser accepts them)")
 ASSUMPTIONS = ["gcc -std=gnu11 on x86-64 (LP64) is the C compiler of the statement; enumerator "
                "values outside int and arithmetic >> of negative values follow gcc",
                "expressions whose untyped (unbounded-integer) reading contains a shift by more "
                "than 4096 are not sent to cffi (it would allocate without bound); counted",
                "static const initialisers are only generated inside the range of the declared "
                "type (the conversion to that type is not part of the expression)",
-               "the API module is compiled by gcc -O0 directly from ffi.emit_c_code() output"]
+               "the API module is compiled by gcc -O0 directly from ffi.emit_c_code() output",
+               "the ffi.verify() mode is exercised on 2 chunks (thorough: every 10th), one engine "
+               "each, the other modes on every chunk",
+               "enumerators used as operands are only generated with values inside int (their C "
+               "type is then int); casts to signed types wrap modulo 2**N as gcc does",
+               "binary literals (0b...) are the gcc extension, typed like octal/hex literals"]
 VARIANT = 'plain'
 
 I32, U32, I64, U64 = (32, True), (32, False), (64, True), (64, False)
@@ -37,9 +66,19 @@ SUFFIXES = [['u', 'U'], ['l', 'L'], ['ll', 'LL'], ['ul', 'uL', 'Ul', 'UL', 'lu',
 ESCAPES = {'n': 10, 't': 9, 'r': 13, 'a': 7, 'b': 8, 'f': 12, 'v': 11, '\\': 92, "'": 39,
            '"': 34, '?': 63, '0': 0, '1': 1, '2': 2, '3': 3, '4': 4, '5': 5, '6': 6, '7': 7}
 BINOPS = ['+', '-', '*', '/', '%', '<<', '>>', '&', '|', '^']
-PREC = {'*': 10, '/': 10, '%': 10, '+': 9, '-': 9, '<<': 8, '>>': 8, '&': 7, '^': 6, '|': 5}
+CMPOPS = ['<', '>', '<=', '>=', '==', '!=']
+LOGOPS = ['&&', '||']
+PREC = {'*': 20, '/': 20, '%': 20, '+': 19, '-': 19, '<<': 18, '>>': 18, '<': 17, '>': 17,
+        '<=': 17, '>=': 17, '==': 16, '!=': 16, '&': 15, '^': 14, '|': 13, '&&': 12, '||': 11}
 OPNAME = {'+': 'add', '-': 'sub', '*': 'mul', '/': 'div', '%': 'mod', '<<': 'shl', '>>': 'shr',
-          '&': 'and', '|': 'or', '^': 'xor'}
+          '&': 'and', '|': 'or', '^': 'xor', '<': 'ext_lt', '>': 'ext_gt', '<=': 'ext_le',
+          '>=': 'ext_ge', '==': 'ext_eq', '!=': 'ext_ne', '&&': 'ext_land', '||': 'ext_lor'}
+CAST_TYPES = [('int', 32, True), ('unsigned', 32, False), ('unsigned int', 32, False),
+              ('long', 64, True), ('unsigned long', 64, False), ('long long', 64, True),
+              ('unsigned long long', 64, False), ('short', 16, True), ('unsigned short', 16, False),
+              ('signed char', 8, True), ('unsigned char', 8, False)]
+TREE_KINDS = ('array', 'bitfield', 'enum', 'menum')
+READING = {(True, False): 'G', (False, False): 'U', (True, True): 'Ge', (False, True): 'Ue'}
 BF_TYPES = [('unsigned char', 8), ('signed char', 8), ('unsigned short', 16), ('short', 16),
             ('int', 32), ('unsigned int', 32), ('long', 64), ('unsigned long', 64),
             ('long long', 64), ('unsigned long long', 64)]
@@ -116,6 +155,37 @@ def _ev(n, typed, esclit, info):
         return n[2], (lit_type(n[2], n[3], n[4]) if typed else None)
     if k == 'C':
         return (n[3] if esclit else n[2]), (I32 if typed else None)
+    if k == 'R':
+        # a named constant: the four readings of its own definition were computed when it
+        # was generated; an enumerator has type int (only generated inside int)
+        c = n[2]
+        v = c[READING[typed, esclit]]
+        if v is None:
+            raise Undef('the named constant is undefined in this reading')
+        if typed and c['uns']:
+            info['unsigned_typed_node'] = True
+        if not typed:
+            return v, None
+        if c['kind'] == 'enumerator':
+            if not fits(v, I32):
+                raise Undef('enumerator outside int (not generated)')
+            return v, I32
+        return v, tuple(c['t'])
+    if k == 'K':
+        # (type)x: modulo 2**bits (gcc for signed targets), then the integer promotions
+        v, t = ev(n[2], typed, esclit, info)
+        bits, signed = n[3], n[4]
+        v &= (1 << bits) - 1
+        if signed and v >= 1 << (bits - 1):
+            v -= 1 << bits
+        return v, (((bits, signed) if bits >= 32 else I32) if typed else None)
+    if k == 'T':
+        c, tc = ev(n[2], typed, esclit, info)
+        a, ta = ev(n[3], typed, esclit, info)
+        b, tb = ev(n[4], typed, esclit, info)
+        t = common(ta, tb) if typed else None
+        r = a if c else b
+        return (conv(r, t) if typed else r), t
     if k == 'U':
         v, t = ev(n[2], typed, esclit, info)
         if n[1] == '-':
@@ -124,10 +194,25 @@ def _ev(n, typed, esclit, info):
                 if t[1] and not fits(v, t):
                     raise Undef('negation overflows')
                 v = conv(v, t)
+        elif n[1] == '~':
+            v = ~v
+            if typed:
+                v = conv(v, t)
+        elif n[1] == '!':
+            v, t = int(v == 0), (I32 if typed else None)
         return v, t
     op = n[1]
     a, ta = ev(n[2], typed, esclit, info)
     b, tb = ev(n[3], typed, esclit, info)
+    if op in LOGOPS:
+        return int(bool(a) and bool(b) if op == '&&' else bool(a) or bool(b)), \
+            (I32 if typed else None)
+    if op in CMPOPS:
+        if typed:
+            t = common(ta, tb)
+            a, b = conv(a, t), conv(b, t)
+        return int({'<': a < b, '>': a > b, '<=': a <= b, '>=': a >= b, '==': a == b,
+                    '!=': a != b}[op]), (I32 if typed else None)
     if op in ('<<', '>>'):
         t = ta
         if b < 0 or (typed and b >= t[0]):
@@ -164,6 +249,11 @@ def _ev(n, typed, esclit, info):
     return r, t
 
 
+def children(n):
+    k = n[0]
+    return [] if k in 'LCR' else [n[2]] if k in 'UK' else n[2:4] if k == 'B' else n[2:5]
+
+
 def models(tree):
     """-> (G, type, U, Ge, Ue, info); G raises Undef when C leaves it undefined;
     the other three are None where that reading is undefined."""
@@ -181,7 +271,7 @@ def models(tree):
 # ---------------------------------------------------------------------------
 # generator
 
-def gen_lit(rng, small=False):
+def gen_lit(rng, small=False, bases='dddoxxb'):
     while True:
         r = rng.random()
         if small or r < .55:
@@ -190,7 +280,7 @@ def gen_lit(rng, small=False):
             v = (1 << rng.choice([7, 8, 15, 16, 31, 32, 63, 64])) + rng.choice([-2, -1, 0, 1])
         else:
             v = rng.getrandbits(rng.choice([8, 16, 31, 32, 33, 48, 63, 64]))
-        base = rng.choice('dddoxx')
+        base = rng.choice(bases)
         suf = '' if rng.random() < .55 else rng.choice(rng.choice(SUFFIXES))
         if not 0 <= v < (1 << 64) or lit_type(v, base, suf) is None:
             continue
@@ -198,6 +288,8 @@ def gen_lit(rng, small=False):
             text = str(v)
         elif base == 'o':
             text = '0' * rng.choice([1, 1, 1, 2]) + ('%o' % v if v else '')
+        elif base == 'b':
+            text = rng.choice(['0b', '0B']) + '0' * rng.choice([0, 0, 1, 2]) + bin(v)[2:]
         else:
             text = rng.choice(['0x', '0X']) + '0' * rng.choice([0, 0, 0, 1, 3]) + ''.join(
                 rng.choice([c, c.upper()]) for c in '%x' % v)
@@ -212,26 +304,48 @@ def gen_chr(rng):
     return ['C', "'%s'" % c, ord(c), ord(c)]
 
 
-def gen_leaf(rng, small=False):
+def gen_leaf(rng, small=False, env=None):
+    if env and env['refs'] and rng.random() < .4:
+        return rng.choice(env['refs'])
     return gen_chr(rng) if rng.random() < .09 else gen_lit(rng, small)
 
 
-def gen_tree(rng, depth, small=False):
+def gen_ext(rng, depth, small, env):
+    """a node with an operator that cparser._parse_constant does not list"""
+    r = rng.random()
+    sub = lambda: gen_tree(rng, rng.randrange(0, depth), small, env)
+    if r < .25:
+        return ['U', rng.choice('~~!'), sub()]
+    if r < .55:
+        return ['B', rng.choice(CMPOPS), sub(), sub()]
+    if r < .7:
+        return ['B', rng.choice(LOGOPS), sub(), sub()]
+    if r < .82:
+        return ['T', '?:', sub(), sub(), sub()]
+    ty, bits, signed = rng.choice(CAST_TYPES)
+    return ['K', ty, sub(), bits, signed]
+
+
+def gen_tree(rng, depth, small=False, env=None):
     """a tree whose C evaluation is defined (undefined nodes are re-drawn locally)"""
     if depth <= 0 or rng.random() < .2:
-        return gen_leaf(rng, small)
+        return gen_leaf(rng, small, env)
+    if env and env['ext'] and rng.random() < .4:
+        n = gen_ext(rng, depth, small, env)
+        if defined(n):
+            return n
     if rng.random() < .15:
-        sub = gen_tree(rng, depth - 1, small)
+        sub = gen_tree(rng, depth - 1, small, env)
         for op in rng.sample(['-', '+', '-'], 2):
             n = ['U', op, sub]
             if defined(n):
                 return n
         return sub
-    left = gen_tree(rng, depth - 1, small)
+    left = gen_tree(rng, depth - 1, small, env)
     for _ in range(6):
         op = rng.choice(BINOPS)
         sm = small or (op in ('<<', '>>') and rng.random() < .85)
-        right = gen_tree(rng, rng.randrange(0, depth), sm)
+        right = gen_tree(rng, rng.randrange(0, depth), sm, env)
         lt = left
         if op in ('/', '%', '>>') and rng.random() < .4:      # negative operands: truncation, sign of %
             lt, right = [x if rng.random() < .4 else ['U', '-', x] for x in (left, right)]
@@ -251,21 +365,27 @@ def defined(n):
 
 def render(n, rng):
     k = n[0]
-    if k in 'LC':
+    if k in 'LCR':
         return n[1]
-    if k == 'U':
+    if k in 'UK':
         s = render(n[2], rng)
-        return n[1] + (s if n[2][0] in 'LC' and rng.random() < .7 else '(%s)' % s)
+        s = s if n[2][0] in 'LCR' and rng.random() < .7 else '(%s)' % s
+        return (n[1] if k == 'U' else '(%s)' % n[1] + rng.choice(['', ' '])) + s
+    if k == 'T':
+        parts = [render(c, rng) for c in n[2:5]]
+        parts = [s if c[0] in 'LCR' or (c[0] in 'UB' and rng.random() < .4) else '(%s)' % s
+                 for s, c in zip(parts, n[2:5])]
+        return '%s ? %s : %s' % tuple(parts)
     parts = []
     for side, c in ((0, n[2]), (1, n[3])):
         s = render(c, rng)
-        need = c[0] == 'U' or (c[0] == 'B' and (PREC[c[1]] < PREC[n[1]] or
-                                                (side == 1 and PREC[c[1]] == PREC[n[1]])))
+        need = c[0] in 'UKT' or (c[0] == 'B' and (PREC[c[1]] < PREC[n[1]] or
+                                                  (side == 1 and PREC[c[1]] == PREC[n[1]])))
         if need or (c[0] == 'B' and rng.random() < .4):
             s = '(%s)' % s
         parts.append(s)
     sp = rng.choice(['', ' ', ' '])
-    if sp == '' and (parts[1][0] in '+-' or (n[1] in '+-' and parts[0][-1] in 'eEpP')):
+    if sp == '' and (parts[1][0] in '+-&' or (n[1] in '+-' and parts[0][-1] in 'eEpP')):
         sp = ' '        # 'a--b' is not 'a - -b'; '0xE+1' is one (invalid) pp-number
     return parts[0] + sp + n[1] + sp + parts[1]
 
@@ -273,7 +393,7 @@ def render(n, rng):
 def tags_of(n, out):
     k = n[0]
     if k == 'L':
-        out.add('lit_' + {'d': 'dec', 'o': 'oct', 'x': 'hex'}[n[3]])
+        out.add('lit_' + {'d': 'dec', 'o': 'oct', 'x': 'hex', 'b': 'bin'}[n[3]])
         s = n[4].lower()
         if s:
             out.add('suffix_' + ''.join(sorted(set(s))))
@@ -283,18 +403,37 @@ def tags_of(n, out):
         out.add('chr_escape' if n[1][1] == '\\' else 'chr_plain')
         if n[2] != n[3]:
             out.add('chr_escape_letter_differs')
+    elif k == 'R':
+        out.add('ref_' + n[2]['kind'])
+        if n[2]['G'] < 0:
+            out.add('ref_negative_value')
+        if 'chr_escape' in n[2]['tags']:
+            out.add('chr_escape')
+    elif k == 'K':
+        out.add('ext_cast')
+        tags_of(n[2], out)
+    elif k == 'T':
+        out.add('ext_ternary')
+        for c in n[2:5]:
+            tags_of(c, out)
     elif k == 'U':
-        out.add('op_unary_' + ('minus' if n[1] == '-' else 'plus'))
+        out.add({'-': 'op_unary_minus', '+': 'op_unary_plus', '~': 'ext_bitnot',
+                 '!': 'ext_lognot'}[n[1]])
         tags_of(n[2], out)
     else:
-        out.add('op_' + OPNAME[n[1]])
+        out.add((n[1] in BINOPS and 'op_' or '') + OPNAME[n[1]])
         tags_of(n[2], out)
         tags_of(n[3], out)
     return out
 
 
 def depth_of(n):
-    return 0 if n[0] in 'LC' else 1 + max(depth_of(c) for c in n[2:])
+    cs = children(n)
+    return 1 + max(depth_of(c) for c in cs) if cs else 0
+
+
+def nontrivial(tree):
+    return depth_of(tree) > 0 or tree[0] in 'CR' or tree[3] != 'd' or bool(tree[4])
 
 
 def wrap_into(rng, tree, kind):
@@ -303,6 +442,9 @@ def wrap_into(rng, tree, kind):
         return rng.choice([['B', '+', ['B', '&', tree, gen_lit_of(63)], gen_lit_of(1)],
                            ['B', '|', ['B', '&', tree, gen_lit_of(rng.choice([7, 31, 62]))],
                             gen_lit_of(1)]])
+    if kind == 'int':
+        return ['B', '-', ['B', '&', tree, gen_lit_of(rng.choice([0xff, 0xffff, 0x7fffffff]))],
+                gen_lit_of(rng.choice([0, 1, 300, 70000]))]
     m = rng.choice([63, 0xff, 0xffff, 0x7ffffffe, 0xfffffffffff])
     return ['B', '+', ['B', '&', tree, gen_lit_of(m)], gen_lit_of(1)]
 
@@ -319,59 +461,207 @@ def in_range(kind, G):
     return True
 
 
+def const_of(kind, name, expr, tree, m):
+    """the record of a named constant (also the payload of an 'R' leaf)"""
+    G, t, U, Ge, Ue, info = m
+    return {'kind': kind, 'name': name, 'expr': expr, 'G': G, 't': list(t), 'U': U, 'Ge': Ge,
+            'Ue': Ue, 'uns': 'unsigned_typed_node' in info,
+            'tags': sorted(tags_of(tree, set()) | set(info))}
+
+
+def gen_enumerators(rng, names, refs, first_implicit=.35):
+    """-> (text of the enumerator list, [constant records]) or None / 'huge'; appends an 'R'
+    leaf per enumerator to refs (so that later ones may use earlier ones); all values inside
+    int, implicit ones = previous + 1 (the first one 0)"""
+    out, texts, prev = [], [], None
+    for j, name in enumerate(names):
+        explicit = rng.random() >= (first_implicit if j == 0 else .45)
+        for attempt in range(60):
+            if explicit:
+                tree = gen_tree(rng, rng.choice([0, 0, 1, 1, 2, 3]), rng.random() < .5,
+                                {'refs': refs, 'ext': False})
+            else:
+                tree = gen_lit_of(0) if prev is None else ['B', '+', prev, gen_lit_of(1)]
+            try:
+                m = models(tree)
+                if not fits(m[0], I32) and explicit and attempt % 2:
+                    tree = wrap_into(rng, tree, 'int')
+                    m = models(tree)
+            except Undef:
+                if not explicit:
+                    explicit = True         # INT_MAX + 1
+                continue
+            except Huge:
+                return 'huge'
+            if fits(m[0], I32):
+                break
+            explicit = True
+        else:
+            return None
+        expr = render(tree, rng) if explicit else None
+        c = const_of('enumerator', name, expr, tree, m)
+        c['implicit'] = not explicit
+        if not explicit:
+            c['tags'] = sorted(set(c['tags']) - {'op_add', 'lit_dec', 'ref_enumerator',
+                                                  'ref_negative_value'} |
+                               {'enumerator_implicit', 'enumerator_implicit_first' if prev is None
+                                else 'enumerator_implicit_after_' +
+                                ('implicit' if out[-1]['implicit'] else 'explicit')})
+        out.append(c)
+        texts.append(name if expr is None else '%s%s=%s%s' % (name, rng.choice(['', ' ']),
+                                                             rng.choice(['', ' ']), expr))
+        prev = ['R', name, c]
+        refs.append(prev)
+    return ', '.join(texts) + rng.choice(['', '', ',']), out
+
+
+def gen_prelude(rng, i):
+    """1-3 named constants declared before the item's own declaration"""
+    text, consts, refs = '', [], []
+    for j in range(rng.choice([1, 1, 2, 3])):
+        tag = '%d%s' % (i, 'abc'[j])
+        if rng.random() < .5:
+            for attempt in range(20):
+                lit = gen_lit(rng, rng.random() < .5, 'dddoxx')
+                tree = lit if rng.random() < .65 else ['U', '-', lit]
+                try:
+                    m = models(tree)
+                    break
+                except Undef:
+                    continue
+            else:
+                return None
+            expr = ('-' if tree[0] == 'U' else '') + lit[1]
+            c = const_of('define', 'R' + tag, expr, tree, m)
+            text += '#define R%s %s\n' % (tag, expr)
+            consts.append(c)
+            refs.append(['R', c['name'], c])
+        else:
+            names = ['R%s%d' % (tag, k) for k in range(rng.choice([1, 2, 2, 3]))]
+            r = gen_enumerators(rng, names, refs)
+            if r is None or r == 'huge':
+                return r
+            text += 'enum r%s { %s };\n' % (tag, r[0])
+            consts.extend(r[1])
+    return {'text': text, 'consts': consts, 'refs': refs}
+
+
+DEFINE_TAILS = ['', '', '', ' ', '\t', ' /* v */', '  // v', '/**/']
+
+
 def gen_item(rng, i, kind):
+    ext = kind in TREE_KINDS and kind != 'menum' and rng.random() < .08
+    with_pre = kind in TREE_KINDS and rng.random() < .3
     for attempt in range(200):
         note = None
-        if kind in ('define', 'sconst'):
-            r = rng.random()
-            lit = gen_lit(rng)
-            if kind == 'define' and r < .12:
-                tree = rng.choice([['U', '+', lit], gen_chr(rng), ['B', rng.choice('+-*|'), lit,
-                                                                    gen_lit(rng, True)],
-                                   ['U', '-', ['U', '-', lit]]])
-                note = 'nonliteral'
+        pre = None
+        if with_pre:
+            pre = gen_prelude(rng, i)
+            if pre == 'huge':
+                return pre
+            if pre is None:
+                continue
+        env = {'refs': list(pre['refs']) if pre else [], 'ext': ext}
+        if kind == 'menum':
+            names = ['M%d_%d' % (i, j) for j in range(rng.choice([2, 3, 3, 4, 5]))]
+            r = gen_enumerators(rng, names, env['refs'])
+            if r is None or r == 'huge':
+                return r
+            tags = set()
+            for c in r[1]:
+                tags.update(c['tags'])
+            if pre and not any(tg.startswith('ref_') for tg in tags) and attempt < 30:
+                continue
+            it = {'i': i, 'ctx': kind, 'expr': r[0], 'enums': r[1], 'G': None,
+                  'depth': 0, 'tags': sorted(tags), 'nontrivial': True,
+                  'decl': 'enum me%d { %s };' % (i, r[0])}
+        else:
+            if kind in ('define', 'sconst'):
+                r = rng.random()
+                lit = gen_lit(rng, False, 'ddddddoooxxxxb')
+                if kind == 'define' and r < .12:
+                    tree = rng.choice([['U', '+', lit], gen_chr(rng), ['B', rng.choice('+-*|'), lit,
+                                                                        gen_lit(rng, True)],
+                                       ['U', '-', ['U', '-', lit]]])
+                    note = 'nonliteral'
+                else:
+                    tree = lit if r < .6 else ['U', '-', lit]
             else:
-                tree = lit if r < .6 else ['U', '-', lit]
-        else:
-            d = rng.choice([0, 1, 1, 2, 2, 3, 3, 4])
-            tree = gen_tree(rng, d, small=(kind == 'bitfield' and rng.random() < .6))
-        try:
-            G, t, U, Ge, Ue, info = models(tree)
-            if not in_range(kind, G) and kind in ('array', 'bitfield') and attempt % 2:
-                tree = wrap_into(rng, tree, kind)
+                d = rng.choice([0, 1, 1, 2, 2, 3, 3, 4])
+                tree = gen_tree(rng, d, kind == 'bitfield' and rng.random() < .6, env)
+            try:
                 G, t, U, Ge, Ue, info = models(tree)
-        except Undef:
-            continue
-        except Huge:
-            return 'huge'
-        if not in_range(kind, G):
-            continue
-        if kind in ('define', 'sconst') and tree[0] == 'U' and tree[2][0] == 'L' and \
-                (kind == 'define' or rng.random() < .7):
-            expr = tree[1] + tree[2][1]     # '-5': the only spelling '#define' accepts
-        else:
-            expr = render(tree, rng)
-        it = {'i': i, 'ctx': kind, 'expr': expr, 'G': G, 'U': U, 'Ge': Ge, 'Ue': Ue,
-              'depth': depth_of(tree), 'tags': sorted(tags_of(tree, set()) | set(info)),
-              'nontrivial': depth_of(tree) > 0 or tree[0] == 'C' or tree[3] != 'd' or bool(tree[4])}
+                if not in_range(kind, G) and kind in ('array', 'bitfield') and attempt % 2:
+                    tree = wrap_into(rng, tree, kind)
+                    G, t, U, Ge, Ue, info = models(tree)
+            except Undef:
+                continue
+            except Huge:
+                return 'huge'
+            if not in_range(kind, G):
+                continue
+            tags = tags_of(tree, set()) | set(info)
+            if pre and not any(tg.startswith('ref_') for tg in tags) and attempt < 30:
+                continue
+            if ext and not any(tg.startswith('ext_') for tg in tags) and attempt < 30:
+                continue
+            if kind in ('define', 'sconst') and tree[0] == 'U' and tree[2][0] == 'L' and \
+                    (kind == 'define' or rng.random() < .7):
+                expr = tree[1] + tree[2][1]     # '-5': the only spelling '#define' accepts
+            else:
+                expr = render(tree, rng)
+            it = {'i': i, 'ctx': kind, 'expr': expr, 'G': G, 'U': U, 'Ge': Ge, 'Ue': Ue,
+                  'shape': {'L': 'literal', 'C': 'character', 'R': 'name'}.get(tree[0],
+                                                                              'expression'),
+                  'depth': depth_of(tree), 'tags': sorted(tags), 'nontrivial': nontrivial(tree)}
+        if any(tg.startswith('ext_') for tg in it['tags']):
+            it['ext'] = True
+        if pre and any(tg.startswith('ref_') for tg in it['tags']):
+            it['pre'] = pre['text']
+            it['prefs'] = pre['consts']
+            it['hist'] = rng.choice(['same', 'prior_cdef', 'include'])
         if note:
             it['tags'].append('define_' + note)
             it['nonliteral'] = True
         if kind == 'array':
-            it['decl'] = 'struct sa%d { char a[%s]; };' % (i, expr)
+            form = rng.choice(['field', 'field', 'typedef', 'outer2d', 'inner2d'])
+            if form.endswith('2d') and G > MAX_ARRAY // 8:
+                form = 'field'
+            it['form'] = form
+            it['k'] = k = rng.choice([2, 3, 5, 7])
+            it['decl'] = {'field': 'struct sa%d { char a[%s]; };' % (i, expr),
+                          'typedef': 'typedef char ta%d[%s];' % (i, expr),
+                          'outer2d': 'struct sa%d { char a[%s][%d]; };' % (i, expr, k),
+                          'inner2d': 'struct sa%d { char a[%d][%s]; };' % (i, k, expr)}[form]
         elif kind == 'bitfield':
             it['ty'] = rng.choice([ty for ty, w in BF_TYPES if w >= G])
             it['decl'] = 'struct sb%d { %s b : %s; };' % (i, it['ty'], expr)
         elif kind == 'enum':
             it['next'] = rng.random() < .25 and -(1 << 31) <= G < (1 << 31) - 1
-            it['decl'] = 'enum e%d { E%d = %s%s };' % (i, i, expr,
-                                                       ', EN%d' % i if it['next'] else '')
+            it['form'] = form = rng.choice(['named', 'named', 'named', 'typedef', 'anonymous'])
+            it['decl'] = {'named': 'enum e%d {', 'typedef': 'typedef enum {', 'anonymous': 'enum {'}[
+                form].replace('%d', str(i)) + ' E%d = %s%s }%s;' % (
+                    i, expr, ', EN%d' % i if it['next'] else '',
+                    ' te%d' % i if form == 'typedef' else '')
         elif kind == 'define':
-            it['decl'] = '#define%sD%d%s%s%s\n' % (rng.choice(' \t'), i, rng.choice([' ', '\t', '  ']),
-                                                  expr, rng.choice(['', '', ' ', '\t']))
-        else:
+            sep = rng.choice([' ', '\t', '  '])
+            if rng.random() < .08:
+                sep = rng.choice([' \\\n', ' \\\n  ', '\\\n\t'])
+                it['tags'].append('define_continuation_line')
+            head = rng.choice(['', '', '', ' ', '\t ']) + '#' + rng.choice(['', '', '', ' ', '\t'])
+            tail = rng.choice(DEFINE_TAILS)
+            if head != '#':
+                it['tags'].append('define_blanks_around_hash')
+            if '/' in tail:
+                it['tags'].append('define_trailing_comment')
+            it['decl'] = '%sdefine%sD%d%s%s%s\n' % (head, rng.choice(' \t'), i, sep, expr, tail)
+        elif kind == 'sconst':
             it['ty'] = rng.choice([ty for ty, w, sg in SC_TYPES if fits(G, (w, sg))])
-            it['decl'] = 'static const %s S%d = %s;' % (it['ty'], i, expr)
+            form = rng.choice(['static const %s', 'static const %s', 'static const %s',
+                               'static %s const', 'const static %s'])
+            if not form.startswith('static const'):
+                it['tags'].append('sconst_other_qualifier_order')
+            it['decl'] = (form + ' S%d = %s;') % (it['ty'], i, expr)
         return it
     return None
 
@@ -382,17 +672,20 @@ PMACRO = ('#ifndef C09P\n#define C09P(x) ((x) < 0 ? printf("%lld\\n", (long long
 
 def probe_unit(it):
     i, k = it['i'], it['ctx']
+    st = ''.join('C09P(%s); ' % c['name'] for c in it.get('prefs', ()))
     if k == 'array':
-        st = 'printf("%%zu\\n", sizeof(struct sa%d));' % i
+        st += 'printf("%%zu\\n", sizeof(%s));' % names_of(it)
     elif k == 'bitfield':
-        st = ('{ struct sb%d o; unsigned char *q = (unsigned char *)&o; size_t k; int n = 0; '
-              'memset(&o, 0, sizeof o); o.b = -1; for (k = 0; k < sizeof o; k++) '
-              'n += __builtin_popcount(q[k]); printf("%%d\\n", n); }' % i)
+        st += ('{ struct sb%d o; unsigned char *q = (unsigned char *)&o; size_t k; int n = 0; '
+               'memset(&o, 0, sizeof o); o.b = -1; for (k = 0; k < sizeof o; k++) '
+               'n += __builtin_popcount(q[k]); printf("%%d\\n", n); }' % i)
     elif k == 'enum':
-        st = 'C09P(E%d);' % i + (' C09P(EN%d);' % i if it['next'] else '')
+        st += 'C09P(E%d);' % i + (' C09P(EN%d);' % i if it['next'] else '')
+    elif k == 'menum':
+        st += ' '.join('C09P(%s);' % c['name'] for c in it['enums'])
     else:
-        st = 'C09P(%s%d);' % ('D' if k == 'define' else 'S', i)
-    return (i, PMACRO + it['decl'], st)
+        st += 'C09P(%s%d);' % ('D' if k == 'define' else 'S', i)
+    return (i, PMACRO + it.get('pre', '') + it['decl'], st)
 
 
 def oracle(it, lines):
@@ -401,14 +694,21 @@ def oracle(it, lines):
         vals = [int(x) for x in lines]
     except (TypeError, ValueError):
         return False
-    exp = [it['G']] + ([it['G'] + 1] if it.get('next') else [])
+    exp = [c['G'] for c in it.get('prefs', ())]
+    if it['ctx'] == 'menum':
+        exp += [c['G'] for c in it['enums']]
+    elif it['ctx'] == 'array' and it['form'].endswith('2d'):
+        exp += [it['G'] * it['k']]
+    else:
+        exp += [it['G']] + ([it['G'] + 1] if it.get('next') else [])
     return vals == exp
 
 
 def generate(ctx):
     rng = ctx.rng('gen')
     n = ctx.scale(5000, 100000)
-    kinds = ['array'] * 3 + ['enum'] * 4 + ['bitfield'] * 2 + ['define'] * 2 + ['sconst'] * 2
+    kinds = ['array'] * 3 + ['enum'] * 3 + ['menum'] + ['bitfield'] * 2 + ['define'] * 2 + \
+        ['sconst'] * 2
     items = []
     for i in range(n):
         it = gen_item(rng, i, kinds[i % len(kinds)])
@@ -424,14 +724,22 @@ def generate(ctx):
         r = res.get(it['i'])
         if not oracle(it, r):
             ctx.count('evaluator_disagrees_with_gcc')
-            ctx.inconclusive('C-typing evaluator and gcc disagree (machinery bug): %s -> model %d, '
-                             'gcc %s' % (it['decl'].strip(), it['G'],
+            ctx.inconclusive('C-typing evaluator and gcc disagree (machinery bug): %s -> model %r, '
+                             'gcc %s' % ((it.get('pre', '') + it['decl']).strip(),
+                                         it['G'] if it['ctx'] != 'menum' else
+                                         [c['G'] for c in it['enums']],
                                          str(r['error'][-300:] if isinstance(r, dict) else r)))
             continue
-        ctx.count('gcc_probed_' + it['ctx'])
+        ctx.count('gcc_probed_' + ('otherforms' if it.get('ext') else it['ctx']))
         good.append(it)
     per = 500 if ctx.thorough else max(40, (len(good) + 15) // 16)
-    return None, [{'no': k // per, 'items': good[k:k + per]} for k in range(0, len(good), per)]
+    cases = [{'no': k // per, 'items': good[k:k + per]} for k in range(0, len(good), per)]
+    # the ffi.verify() mode (a distutils build each): a few chunks, both engines
+    for c in cases[::20] if ctx.thorough else cases[:1]:
+        c['verify'] = 'cpy'
+    for c in cases[10::20] if ctx.thorough else cases[1:2]:
+        c['verify'] = 'gen'
+    return None, cases
 
 
 # ---------------------------------------------------------------------------
@@ -450,6 +758,7 @@ class ParseConstantReturnsInt(ContractViolation):
 
 
 TOP = {'depth': 0, 'value': None}
+NUMBERED = re.compile(r'\b([RM])\d+')       # names carry the item number: not part of the case
 CONTRACT_EVALS = {'c_div_truncates': 0, 'parse_constant_returns_int': 0}
 
 
@@ -505,15 +814,45 @@ def child_setup(setup, wd):
 
 def names_of(it):
     i = it['i']
+    if it['ctx'] == 'array' and it['form'] == 'typedef':
+        return 'ta%d' % i
+    if it['ctx'] == 'enum' and it['form'] != 'named':
+        return 'te%d' % i if it['form'] == 'typedef' else None
     return {'array': 'struct sa%d', 'bitfield': 'struct sb%d', 'enum': 'enum e%d',
-            'define': 'D%d', 'sconst': 'S%d'}[it['ctx']] % i
+            'menum': 'enum me%d', 'define': 'D%d', 'sconst': 'S%d'}[it['ctx']] % i
+
+
+def read_constant(ffi, lib, name, mode):
+    """every way this mode reports a named integer constant -> {path: value}"""
+    out = {}
+    if mode == 'inline':
+        out['int_constants'] = ffi._parser._int_constants[name]
+    elif mode != 'verify':
+        out['integer_const'] = ffi.integer_const(name)
+    out['lib'] = getattr(lib, name)
+    return out
 
 
 def observe(ffi, lib, it, mode):
     """every way this mode reports the value -> {path: value}"""
     k, nm, i = it['ctx'], names_of(it), it['i']
     out = {}
-    if k == 'array':
+    if k == 'array' and it['form'] == 'typedef':
+        t = ffi.typeof(nm)
+        out['typedef_length'] = t.length
+        out['sizeof_typedef'] = ffi.sizeof(nm)
+        if mode == 'inline':
+            out['typeof_string'] = ffi.typeof('char[%s]' % it['expr']).length
+    elif k == 'array' and it['form'].endswith('2d'):
+        ft = ffi.typeof(nm).fields[0][1].type
+        dims = (ft.length, ft.item.length)
+        mine, other = dims if it['form'] == 'outer2d' else dims[::-1]
+        out['field_length'] = mine
+        out['_other_dim'] = other
+        if mine >= 1:
+            sz = ffi.sizeof(nm)
+            out['sizeof_struct_over_k'] = sz // it['k'] if sz % it['k'] == 0 else 'sizeof %d' % sz
+    elif k == 'array':
         t = ffi.typeof(nm)
         out['field_length'] = t.fields[0][1].type.length
         out['sizeof_field'] = ffi.sizeof(t.fields[0][1].type)
@@ -524,25 +863,32 @@ def observe(ffi, lib, it, mode):
     elif k == 'bitfield':
         out['bitsize'] = ffi.typeof(nm).fields[0][1].bitsize
     elif k == 'enum':
-        t = ffi.typeof(nm)
         en = 'E%d' % i
-        out['relements'] = t.relements[en]
-        out['elements'] = [v for v, name in t.elements.items() if name == en][0]
+        if nm is not None:      # an anonymous enum has no type name to ask for
+            t = ffi.typeof(nm)
+            out['relements'] = t.relements[en]
+            out['elements'] = [v for v, name in t.elements.items() if name == en][0]
         out['lib'] = getattr(lib, en)
         if mode == 'inline':
             out['int_constants'] = ffi._parser._int_constants[en]
-        else:
+        elif mode != 'verify':
             out['integer_const'] = ffi.integer_const(en)
         if it['next']:
             out['_next'] = getattr(lib, 'EN%d' % i)
+    elif k == 'menum':
+        t = ffi.typeof(nm)
+        out = []
+        for c in it['enums']:
+            o = read_constant(ffi, lib, c['name'], mode)
+            o['relements'] = t.relements[c['name']]
+            byvalue = [v for v, name in t.elements.items() if name == c['name']]
+            if byvalue:         # .elements keeps one name per value
+                o['elements'] = byvalue[0]
+            out.append(o)
     else:
-        if mode == 'inline':
-            if nm not in ffi._parser._int_constants:
-                return None         # not evaluated by cffi (value left to the C library)
-            out['int_constants'] = ffi._parser._int_constants[nm]
-        else:
-            out['integer_const'] = ffi.integer_const(nm)
-        out['lib'] = getattr(lib, nm)
+        if mode == 'inline' and nm not in ffi._parser._int_constants:
+            return None         # not evaluated by cffi (value left to the C library)
+        out = read_constant(ffi, lib, nm, mode)
     return out
 
 
@@ -561,6 +907,106 @@ def classify(it, X):
     return 'value-differs:' + it['ctx']
 
 
+def cdef_inline(it):
+    """the in-line FFI of one item; a prelude of named constants comes in the same cdef(),
+    in an earlier cdef() call, or from an included FFI"""
+    from cffi import FFI
+    ffi = FFI()
+    pre, hist = it.get('pre', ''), it.get('hist')
+    if pre and hist == 'prior_cdef':
+        ffi.cdef(pre)
+        ffi.cdef(it['decl'])
+    elif pre and hist == 'include':
+        base = FFI()
+        base.cdef(pre)
+        ffi.include(base)
+        ffi.cdef(it['decl'])
+    else:
+        ffi.cdef(pre + it['decl'])
+    return ffi
+
+
+def type_string_lengths(rep, ffi, it, expected, mech, what):
+    """out-of-line type strings: 'char[<expression>]' and 'char[<NAME>]' go through the C
+    type parser (parse_c_type.c: literals and named integer constants); where it accepts
+    the string, the length must be the value"""
+    todo = []
+    if it['ctx'] == 'array':
+        todo.append((it['expr'], expected, it['shape']))
+    elif it['ctx'] == 'enum':
+        todo.append(('E%d' % it['i'], expected, 'name'))
+    elif it['ctx'] == 'menum':
+        todo.extend((c['name'], x, 'name') for c, x in zip(it['enums'], expected))
+    elif it['ctx'] in ('define', 'sconst'):
+        todo.append((names_of(it), expected, 'name'))
+    for text, x, form in todo:
+        try:
+            got = ffi.typeof('char[%s]' % text).length
+        except Exception as e:
+            rep.stat('type_string_%s_rejected' % form)
+            continue
+        rep.stat('type_string_%s_values_read' % form)
+        if got != x or type(got) is not int:
+            rep.bad(mech + ':type-string-' + form, '%s: %s value %r, ffi.typeof("char[%s]").length '
+                    '== %r' % ((it.get('pre', '') + it['decl']).strip(), what, x, text, got),
+                    it['i'])
+
+
+def verify_stage(rep, st, case, agreeing):
+    """the old ffi.verify() mode (vengine_cpy / vengine_gen have their own generated checks
+    of the cdef values against the C compiler): declarations whose in-line values are
+    gcc's must load and report the same values"""
+    from cffi import FFI, VerificationError
+    engine = case['verify']
+    agreeing = agreeing[::max(1, (len(agreeing) + 199) // 200)]     # a build of <= 200 items
+    text = '\n'.join(it.get('pre', '') + it['decl'] for it in agreeing)
+    f = FFI()
+    try:
+        f.cdef(text)
+        vlib = f.verify('#include <stdint.h>\n#include <sys/types.h>\n' + text,
+                        tmpdir=os.path.join(st['wd'], 'c09ver_%d' % case['no']),
+                        modulename='_c09ver_%d' % case['no'], extra_compile_args=['-O0', '-w'],
+                        force_generic_engine=(engine == 'gen'))
+    except Exception as e:
+        import traceback
+        msg = 'ffi.verify() (engine %s) of declarations whose in-line values are gcc\'s raised ' \
+            '%s: %s\n%s' % (engine, type(e).__name__, str(e)[:400], traceback.format_exc()[-600:])
+        if isinstance(e, VerificationError) and ('CompileError' in str(e) or 'LinkError' in str(e)):
+            rep.bad('harness-verify-module-build', msg, None)
+        else:
+            rep.bad('verify-module-raised:' + type(e).__name__, msg, None)
+        return
+    rep.stat('verify_modules_' + engine)
+    for it in agreeing:
+        full = (it.get('pre', '') + it['decl']).strip()
+        try:
+            obs = observe(f, vlib, it, 'verify')
+            preobs = [read_constant(f, vlib, c['name'], 'verify') for c in it.get('prefs', ())]
+        except Exception as e:
+            rep.bad('verify-check-disagrees:' + it['ctx'], '%s: in-line value %r equals gcc\'s, '
+                    'ffi.verify() module raised %s: %s' % (full, it['X'], type(e).__name__,
+                                                           str(e)[:300]), it['i'])
+            continue
+        pairs = list(zip(it.get('prefs', ()), preobs))
+        if it['ctx'] == 'menum':
+            pairs += list(zip(it['enums'], obs))
+        for c, o in pairs:
+            rep.stat('verify_module_values_read', len(o))
+            if set(o.values()) != {c['G']}:
+                rep.bad('verify-check-disagrees:' + ('menum' if c in it.get('enums', ()) else
+                                                     'prelude'), '%s: %s: gcc %d, ffi.verify() '
+                        'module %r' % (full, c['name'], c['G'], o), it['i'])
+        if it['ctx'] == 'menum':
+            continue
+        nxt = obs.pop('_next', None)
+        other = obs.pop('_other_dim', None)
+        rep.stat('verify_module_values_read', len(obs))
+        if set(obs.values()) != {it['G']} or (nxt is not None and nxt != it['G'] + 1) or \
+                (other is not None and other != it['k']):
+            rep.bad('verify-check-disagrees:' + it['ctx'], '%s: gcc %d, ffi.verify() module %r' %
+                    (full, it['G'], obs), it['i'])
+
+
 def child_case(st, case):
     import importlib
     from cffi import FFI
@@ -569,83 +1015,158 @@ def child_case(st, case):
     accepted, agreeing = [], []
     for it in case['items']:
         k, G = it['ctx'], it['G']
-        rep.case((k, it['expr'], it.get('ty')), nontrivial=it['nontrivial'],
-                 sample={'decl': it['decl'].strip(), 'gcc': G})
+        kk = 'otherforms' if it.get('ext') else k
+        full = (it.get('pre', '') + it['decl']).strip()
+        rep.case((k, it.get('ty'), it.get('form'), it.get('hist'),
+                  [NUMBERED.sub(r'\1', c['expr'] or '') for c in it.get('prefs', []) +
+                   it.get('enums', [])], NUMBERED.sub(r'\1', it['expr'] if k != 'menum' else '')),
+                 nontrivial=it['nontrivial'],
+                 sample={'decl': full, 'gcc': G if k != 'menum' else [c['G'] for c in it['enums']]})
         TOP['value'] = pv = None
         try:
-            ffi = FFI()
-            ffi.cdef(it['decl'])
+            ffi = cdef_inline(it)
             pv = TOP['value']           # arrays, widths, enumerators: what the parser computed
-            obs = observe(ffi, ffi.dlopen(None), it, 'inline')
+            lib = ffi.dlopen(None)
+            obs = observe(ffi, lib, it, 'inline')
+            preobs = [read_constant(ffi, lib, c['name'], 'inline') for c in it.get('prefs', ())]
         except ContractViolation as e:
-            rep.bad('contract:' + type(e).__name__, '%s: %s' % (it['decl'].strip(), str(e)[-300:]),
-                    it['i'])
+            rep.bad('contract:' + type(e).__name__, '%s: %s' % (full, str(e)[-300:]), it['i'])
             continue
         except Exception as e:
             # not "accepted": outside the statement; recorded with the reason
-            rep.stat('rejected_%s' % k)
-            rep.stat('rejected_%s:%s' % (k, type(e).__name__))
+            rep.stat('rejected_%s' % kk)
+            rep.stat('rejected_%s:%s' % (kk, type(e).__name__))
+            for tg in it['tags']:
+                if tg.startswith('ext_'):
+                    rep.stat('rejected_form_with_' + tg)
             pv = TOP['value'] if pv is None else pv
-            if pv is None:
-                rep.stat('rejected_before_a_value_was_computed_' + k)
+            if k == 'menum' or it.get('pre') or it.get('form', '').endswith('2d'):
+                pass                    # the last value computed is not this expression's
+            elif pv is None:
+                rep.stat('rejected_before_a_value_was_computed_' + kk)
             elif pv == G:
-                rep.stat('rejected_although_parser_value_equals_gcc_' + k)
+                rep.stat('rejected_although_parser_value_equals_gcc_' + kk)
             else:
                 rep.stat('rejected_after_parser_value_differs:' + classify(it, pv))
             continue
         if obs is None:
             rep.stat('not_evaluated_by_cffi_' + k)
             continue
-        if k in ('array', 'bitfield', 'enum'):
+        rep.stat('accepted_' + kk)
+        if it.get('ext'):
+            rep.stat('accepted_otherforms_in_' + k)
+        rep.stat('depth_%d' % it['depth'])
+        for tg in it['tags']:
+            rep.stat(tg)
+        if it.get('pre'):
+            rep.stat('prelude_' + it['hist'])
+        # ---- the named constants of the prelude
+        ok = True
+        it = dict(it)
+        it['preX'] = []
+        for c, o in zip(it.get('prefs', ()), preobs):
+            rep.stat('inline_values_read', len(o))
+            rep.stat('prelude_constants')
+            x = o['int_constants']
+            it['preX'].append(x)
+            if len(set(o.values())) != 1:
+                rep.bad('inline-paths-disagree:prelude', '%s: %s: %r' % (full, c['name'], o), it['i'])
+            if x != c['G'] or type(x) is not int:
+                ok = False
+                rep.bad(classify(dict(c, ctx='prelude-' + c['kind']), x), '%s: %s: cffi %r, gcc %d '
+                        '(untyped reading %r)' % (full, c['name'], x, c['G'], c['U']), it['i'])
+        # ---- several enumerators
+        if k == 'menum':
+            it['X'] = []
+            for c, o in zip(it['enums'], obs):
+                rep.stat('inline_values_read', len(o))
+                rep.stat('menum_enumerators')
+                x = o['relements']
+                it['X'].append(x)
+                if len(set(o.values())) != 1:
+                    rep.bad('inline-paths-disagree:menum', '%s: %s: %r' % (full, c['name'], o),
+                            it['i'])
+                if c['U'] != c['G']:
+                    rep.stat('untyped_reading_differs_from_C')
+                if x != c['G'] or type(x) is not int:
+                    ok = False
+                    rep.bad(classify(dict(c, ctx='menum' + ('-implicit' if c['implicit'] else '')),
+                                     x), '%s: %s: cffi %r, gcc %d (untyped reading %r)' %
+                            (full, c['name'], x, c['G'], c['U']), it['i'])
+            accepted.append(it)
+            if ok:
+                agreeing.append(it)
+            continue
+        # ---- one expression
+        other = obs.pop('_other_dim', None)
+        if other is not None:
+            rep.stat('array_2d_other_dimension_read')
+            if other != it['k']:
+                rep.bad('array-2d-other-dimension', '%s: the constant dimension %d is reported as '
+                        '%r' % (full, it['k'], other), it['i'])
+        elif k in ('array', 'bitfield', 'enum'):
             obs['parser_value'] = pv
             if k == 'bitfield' and isinstance(pv, int) and pv < 0 and obs['bitsize'] == -1:
                 del obs['bitsize']      # a negative width silently declares a plain field
                 rep.stat('negative_width_became_plain_field')
-        rep.stat('accepted_' + k)
-        rep.stat('depth_%d' % it['depth'])
-        for tg in it['tags']:
-            rep.stat(tg)
+        if k in ('array', 'enum'):
+            rep.stat('%s_form_%s' % (k, it['form']))
         nxt = obs.pop('_next', None)
         rep.stat('inline_values_read', len(obs))
         X = obs['parser_value'] if 'parser_value' in obs else obs[sorted(obs)[0]]
-        it = dict(it, X=X)
+        it['X'] = X
         accepted.append(it)
         if len(set(obs.values())) != 1:
-            rep.bad('inline-paths-disagree:' + k, '%s: %r' % (it['decl'].strip(), obs), it['i'])
+            rep.bad('inline-paths-disagree:' + k, '%s: %r' % (full, obs), it['i'])
         if nxt is not None:
             rep.stat('enum_implicit_next')
             if nxt != X + 1:
-                rep.bad('enum-implicit-next', '%s: E = %r but EN = %r' % (it['decl'], X, nxt),
+                rep.bad('enum-implicit-next', '%s: E = %r but EN = %r' % (full, X, nxt),
                         it['i'])
         if it['U'] != G:
             rep.stat('untyped_reading_differs_from_C')
         if 'chr_escape' in it['tags'] and it['Ge'] != G:
             rep.stat('escape_letter_reading_differs_from_C')
         if X == G and type(X) is int:
-            agreeing.append(it)
+            if ok:
+                agreeing.append(it)
         else:
             rep.bad(classify(it, X), '%s: cffi %r, gcc %d (untyped reading %r)' %
-                    (it['decl'].strip(), X, G, it['U']), it['i'])
+                    (full, X, G, it['U']), it['i'])
     for name, n in CONTRACT_EVALS.items():
         rep.stat('contract_evaluations_%s' % name, n - ev0[name])
     rep.stat('contracts_installed_with_' + st['contracts'])
+    if case.get('verify') and agreeing:
+        verify_stage(rep, st, case, agreeing)
     # ---- out-of-line ABI module: must report what the in-line FFI reports
     nacc = len(accepted)
     accepted = [it for it in accepted if not (it['ctx'] == 'array' and it['X'] >= 1 << 31)]
     rep.stat('abi_module_refuses_array_length_ge_2**31', nacc - len(accepted))
     nacc = len(accepted)    # a (wrong) in-line value outside 64 bits has no out-of-line form
-    accepted = [it for it in accepted if -(1 << 63) <= it['X'] < (1 << 64)]
+    accepted = [it for it in accepted
+                if all(-(1 << 63) <= x < (1 << 64) for x in
+                       (it['X'] if it['ctx'] == 'menum' else [it['X']]) + it['preX'])]
     rep.stat('abi_module_skipped_inline_value_outside_64_bits', nacc - len(accepted))
     if not accepted:
         return rep.result()
     try:
         mod = '_c09abi_%d' % case['no']
+        inbase = lambda it: bool(it.get('pre')) and it['hist'] == 'include'
         f = FFI()
-        f.cdef('\n'.join(it['decl'] for it in accepted))
+        if any(inbase(it) for it in accepted):
+            # preludes that the in-line FFI got through ffi.include(): an included module
+            fb = FFI()
+            fb.cdef(''.join(it['pre'] for it in accepted if inbase(it)))
+            fb.set_source(mod + '_base', None)
+            fb.emit_python_code(os.path.join(st['wd'], mod + '_base.py'))
+            f.include(fb)
+            rep.stat('abi_base_modules')
+        f.cdef('\n'.join(('' if inbase(it) else it.get('pre', '')) + it['decl'] for it in accepted))
         f.set_source(mod, None)
         f.emit_python_code(os.path.join(st['wd'], mod + '.py'))
         importlib.invalidate_caches()
         sys.modules.pop(mod, None)
+        sys.modules.pop(mod + '_base', None)
         m = importlib.import_module(mod)
         lib = m.ffi.dlopen(None)
         rep.stat('abi_modules')
@@ -654,23 +1175,42 @@ def child_case(st, case):
         rep.bad('abi-module-raised:' + type(e).__name__, traceback.format_exc()[-700:], None)
         m = None
     for it in accepted if m else []:
+        full = (it.get('pre', '') + it['decl']).strip()
         try:
             obs = observe(m.ffi, lib, it, 'abi')
-            obs.pop('_next', None)
+            preobs = [read_constant(m.ffi, lib, c['name'], 'abi') for c in it.get('prefs', ())]
         except Exception as e:
             rep.bad('mode-disagrees:abi-module:' + it['ctx'], '%s: in-line %r, out-of-line raised '
-                    '%s: %s' % (it['decl'].strip(), it['X'], type(e).__name__, e), it['i'])
+                    '%s: %s' % (full, it['X'], type(e).__name__, e), it['i'])
             continue
-        rep.stat('abi_module_values_read', len(obs))
-        if set(obs.values()) != {-1 if it['ctx'] == 'bitfield' and it['X'] < 0 else it['X']}:
-            rep.bad('mode-disagrees:abi-module:' + it['ctx'], '%s: in-line %r, out-of-line %r' %
-                    (it['decl'].strip(), it['X'], obs), it['i'])
+        for c, o, x in zip(it.get('prefs', ()), preobs, it['preX']):
+            rep.stat('abi_module_values_read', len(o))
+            if inbase(it):
+                rep.stat('abi_module_constants_read_through_include')
+            if set(o.values()) != {x}:
+                rep.bad('mode-disagrees:abi-module:prelude' + ('-included' if inbase(it) else ''),
+                        '%s: %s: in-line %r, out-of-line %r' % (full, c['name'], x, o), it['i'])
+        if it['ctx'] == 'menum':
+            for c, o, x in zip(it['enums'], obs, it['X']):
+                rep.stat('abi_module_values_read', len(o))
+                if set(o.values()) != {x}:
+                    rep.bad('mode-disagrees:abi-module:menum', '%s: %s: in-line %r, out-of-line %r'
+                            % (full, c['name'], x, o), it['i'])
+        else:
+            obs.pop('_next', None)
+            other = obs.pop('_other_dim', None)
+            rep.stat('abi_module_values_read', len(obs))
+            if set(obs.values()) != {-1 if it['ctx'] == 'bitfield' and it['X'] < 0 else it['X']} \
+                    or (other is not None and other != it['k']):
+                rep.bad('mode-disagrees:abi-module:' + it['ctx'], '%s: in-line %r, out-of-line %r' %
+                        (full, it['X'], obs), it['i'])
+        type_string_lengths(rep, m.ffi, it, it['X'], 'mode-disagrees:abi-module', 'in-line')
     # ---- API module: the generated checks against the C compiler must agree
     if not agreeing:
         return rep.result()
     try:
         mod = '_c09api_%d' % case['no']
-        text = '\n'.join(it['decl'] for it in agreeing)
+        text = '\n'.join(it.get('pre', '') + it['decl'] for it in agreeing)
         f = FFI()
         f.cdef(text)
         f.set_source(mod, '#include <stdint.h>\n#include <sys/types.h>\n' + text)
@@ -692,18 +1232,37 @@ def child_case(st, case):
         rep.bad('api-module-raised:' + type(e).__name__, traceback.format_exc()[-700:], None)
         return rep.result()
     for it in agreeing:
+        full = (it.get('pre', '') + it['decl']).strip()
         try:
             obs = observe(m.ffi, m.lib, it, 'api')
-            nxt = obs.pop('_next', None)
+            preobs = [read_constant(m.ffi, m.lib, c['name'], 'api') for c in it.get('prefs', ())]
         except Exception as e:
             rep.bad('api-check-disagrees:' + it['ctx'], '%s: in-line value %r equals gcc\'s, API '
-                    'module raised %s: %s' % (it['decl'].strip(), it['X'], type(e).__name__,
-                                              str(e)[:300]), it['i'])
+                    'module raised %s: %s' % (full, it['X'], type(e).__name__, str(e)[:300]),
+                    it['i'])
             continue
+        for c, o in zip(it.get('prefs', ()), preobs):
+            rep.stat('api_module_values_read', len(o))
+            if set(o.values()) != {c['G']}:
+                rep.bad('api-check-disagrees:prelude', '%s: %s: gcc %d, API module %r' %
+                        (full, c['name'], c['G'], o), it['i'])
+        if it['ctx'] == 'menum':
+            for c, o in zip(it['enums'], obs):
+                rep.stat('api_module_values_read', len(o))
+                if set(o.values()) != {c['G']}:
+                    rep.bad('api-check-disagrees:menum', '%s: %s: gcc %d, API module %r' %
+                            (full, c['name'], c['G'], o), it['i'])
+            type_string_lengths(rep, m.ffi, it, [c['G'] for c in it['enums']],
+                                'api-check-disagrees', 'gcc')
+            continue
+        nxt = obs.pop('_next', None)
+        other = obs.pop('_other_dim', None)
         rep.stat('api_module_values_read', len(obs))
-        if set(obs.values()) != {it['G']} or (nxt is not None and nxt != it['G'] + 1):
+        if set(obs.values()) != {it['G']} or (nxt is not None and nxt != it['G'] + 1) or \
+                (other is not None and other != it['k']):
             rep.bad('api-check-disagrees:' + it['ctx'], '%s: gcc %d, API module %r' %
-                    (it['decl'].strip(), it['G'], obs), it['i'])
+                    (full, it['G'], obs), it['i'])
+        type_string_lengths(rep, m.ffi, it, it['G'], 'api-check-disagrees', 'gcc')
     return rep.result()
 
 
@@ -714,7 +1273,7 @@ def run(ctx):
         if core.std_obs_check(ctx, c, o):
             judge(ctx, setup, c, o)
     cnt = ctx.counters
-    for k in ('array', 'bitfield', 'enum', 'define', 'sconst'):
+    for k in ('array', 'bitfield', 'enum', 'menum', 'define', 'sconst'):
         if cnt.get('accepted_' + k, 0) < 0.5 * cnt.get('gcc_probed_' + k, 0) or \
                 not cnt.get('accepted_' + k):
             ctx.inconclusive('cffi evaluated only %d of %d %s expressions' %
@@ -722,13 +1281,13 @@ def run(ctx):
     for k in CONTRACT_EVALS:
         if not cnt.get('contract_evaluations_' + k):
             ctx.inconclusive('contract %s was never evaluated' % k)
-    for k in ('abi_module_values_read', 'api_module_values_read'):
+    for k in ('abi_module_values_read', 'api_module_values_read', 'verify_module_values_read'):
         if not cnt.get(k):
             ctx.inconclusive('no value was read in mode %s' % k.split('_values')[0])
 
 
 def judge(ctx, setup, case, obs):
     def rp(i):
-        return case if i is None else {'no': case['no'],
-                                       'items': [it for it in case['items'] if it['i'] == i]}
+        return case if i is None else dict(case, items=[it for it in case['items']
+                                                        if it['i'] == i])
     core.absorb(ctx, case, obs, rp)
